@@ -146,30 +146,7 @@ SeqX == INSTANCE SequencesExt   \* FoldLeft is evaluated iteratively by TLC (Jav
 Calls(s, fl) == SeqX!FoldLeft(LAMBDA a, e : a \o CallsOfEvent(e, fl), <<>>, s)
 
 \* ======================================================================================================
-\* Part 4 (before 3): level data
-\* ======================================================================================================
-MaxLevAll == 6                         \* levels 0..6 carry data
-Dim(l) == IF l % 2 = 0 THEN 3 ELSE 2   \* number of unknowns of level l
-\* unit-filter-like constraint: these entries are forced to 0.  Every level keeps >= 2 free unknowns: with a
-\* single free unknown an adaptive step length solves the level exactly and the next one is 0/0.
-FiltSet(l) == IF l % 2 = 1 THEN {} ELSE {(l % 3) + 1}
-
-Mix(h, k) == (((h * h) % P) * 31 + h * 17 + k * 7919 + 12345) % P
-Val(tag, l, i, j) == Mix(Mix(Mix(Mix(Mix(Seed % P, tag), l), i), j), 77)
-
-GenMat(tag, l, m, n, frows) == TLCEval([i \in 1..m |-> TLCEval([j \in 1..n |-> IF frows /\ i \in FiltSet(l) THEN 0 ELSE Val(tag, l, i, j)])])
-\* constant-level definitions: TLC evaluates them once
-Amat  == [l \in 0..MaxLevAll |-> GenMat(1, l, Dim(l), Dim(l), FALSE)]     \* system matrices
-Spre  == [l \in 0..MaxLevAll |-> GenMat(2, l, Dim(l), Dim(l), TRUE)]      \* smoothers / solvers return filtered corrections
-Spost == [l \in 0..MaxLevAll |-> GenMat(3, l, Dim(l), Dim(l), TRUE)]
-Speak == [l \in 0..MaxLevAll |-> GenMat(4, l, Dim(l), Dim(l), TRUE)]
-Csol  == [l \in 0..MaxLevAll |-> GenMat(5, l, Dim(l), Dim(l), TRUE)]
-Pmat  == [l \in 0..(MaxLevAll - 1) |-> GenMat(6, l, Dim(l), Dim(l + 1), FALSE)]   \* prolongation l+1 -> l
-Rmat  == [l \in 0..(MaxLevAll - 1) |-> GenMat(7, l, Dim(l + 1), Dim(l), FALSE)]   \* restriction  l -> l+1
-Defect(dk, top) == TLCEval([i \in 1..Dim(top) |-> IF i \in FiltSet(top) THEN 0 ELSE Val(8, dk, i, top)])
-
-\* ======================================================================================================
-\* Part 3: denotation over Z_p
+\* arithmetic in Z_p
 \* ======================================================================================================
 \* (TLCEval forces TLC to evaluate a function constructor once instead of re-evaluating its body on every application)
 RECURSIVE DotN(_, _, _)
@@ -180,29 +157,86 @@ VAdd(a, b) == TLCEval([i \in 1..Len(a) |-> (a[i] + b[i]) % P])
 VSub(a, b) == TLCEval([i \in 1..Len(a) |-> (a[i] - b[i]) % P])
 VScale(w, a) == TLCEval([i \in 1..Len(a) |-> (w * a[i]) % P])
 VZero(n) == TLCEval([i \in 1..n |-> 0])
-Filt(l, v) == TLCEval([i \in 1..Len(v) |-> IF i \in FiltSet(l) THEN 0 ELSE v[i]])
 RECURSIVE PowP(_, _)
 PowP(a, e) == IF e = 0 THEN 1 ELSE LET h == PowP(a, e \div 2) IN IF e % 2 = 0 THEN (h * h) % P ELSE (((h * h) % P) * a) % P
 Inv(a) == PowP(a, P - 2)
 
+\* ======================================================================================================
+\* Part 4 (before 3): level data
+\* ======================================================================================================
+MaxLevAll == 6                         \* levels 0..6 carry data
+Dim(l) == IF l % 2 = 0 THEN 3 ELSE 2   \* number of unknowns of level l
+
+Mix(h, k) == (((h * h) % P) * 31 + h * 17 + k * 7919 + 12345) % P
+Val(tag, l, i, j) == Mix(Mix(Mix(Mix(Mix(Seed % P, tag), l), i), j), 77)
+
+\* ---- system filters ------------------------------------------------------------------------------------
+\* A filter is a pair of projections given by a primal vector p and a dual vector d with <p, d> = 1:
+\*     filter_def(v) = v - <v, p> d        (defects / right-hand sides, dual vectors)
+\*     filter_cor(v) = v - <v, d> p        (corrections / solutions, primal vectors)
+\* as LAFEM::MeanFilter has them; the two are DIFFERENT projections unless p = d.  Three kinds are used:
+\*   "mean"  generic p and d (levels 0, 4): filter_def # filter_cor
+\*   "unit"  p = d = a unit vector (levels 2, 6): both force one entry to 0, as LAFEM::UnitFilter does
+\*   "none"  no constraint (odd levels, which have only 2 unknowns)
+\* Every level keeps >= 2 free unknowns: with a single free unknown an adaptive step length solves the level
+\* exactly and the next one is 0/0.
+FPraw(l) == TLCEval([i \in 1..Dim(l) |-> Val(9, l, i, 1)])
+FDraw(l) == TLCEval([i \in 1..Dim(l) |-> Val(9, l, i, 2)])
+FKind(l) == IF l % 2 = 1 THEN "none"
+            ELSE IF l % 4 = 0 /\ Dot(FPraw(l), FDraw(l)) # 0 THEN "mean" ELSE "unit"
+UnitVec(l) == TLCEval([i \in 1..Dim(l) |-> IF i = (l % 3) + 1 THEN 1 ELSE 0])
+FP == [l \in 0..MaxLevAll |-> CASE FKind(l) = "none" -> VZero(Dim(l)) [] FKind(l) = "unit" -> UnitVec(l) [] FKind(l) = "mean" -> FPraw(l)]
+FD == [l \in 0..MaxLevAll |-> CASE FKind(l) = "none" -> VZero(Dim(l)) [] FKind(l) = "unit" -> UnitVec(l)
+                                 [] FKind(l) = "mean" -> VScale(Inv(Dot(FPraw(l), FDraw(l))), FDraw(l))]
+FKinds == [l \in 0..MaxLevAll |-> FKind(l)]
+FiltDef(l, v) == IF FKinds[l] = "none" THEN v ELSE VSub(v, VScale(Dot(v, FP[l]), FD[l]))
+FiltCor(l, v) == IF FKinds[l] = "none" THEN v ELSE VSub(v, VScale(Dot(v, FD[l]), FP[l]))
+\* both maps are projections
+ASSUME \A l \in 0..MaxLevAll : Dot(FP[l], FD[l]) = (IF FKinds[l] = "none" THEN 0 ELSE 1)
+
+GenMat(tag, l, m, n) == TLCEval([i \in 1..m |-> TLCEval([j \in 1..n |-> Val(tag, l, i, j)])])
+\* smoothers / solvers return filtered corrections:  S = filter_cor o S'
+GenSol(tag, l) ==
+  LET n == Dim(l)
+      raw == GenMat(tag, l, n, n)
+      cols == [j \in 1..n |-> FiltCor(l, [i \in 1..n |-> raw[i][j]])]
+  IN TLCEval([i \in 1..n |-> TLCEval([j \in 1..n |-> cols[j][i]])])
+\* constant-level definitions: TLC evaluates them once
+Amat  == [l \in 0..MaxLevAll |-> GenMat(1, l, Dim(l), Dim(l))]     \* system matrices
+Spre  == [l \in 0..MaxLevAll |-> GenSol(2, l)]
+Spost == [l \in 0..MaxLevAll |-> GenSol(3, l)]
+Speak == [l \in 0..MaxLevAll |-> GenSol(4, l)]
+Csol  == [l \in 0..MaxLevAll |-> GenSol(5, l)]
+Pmat  == [l \in 0..(MaxLevAll - 1) |-> GenMat(6, l, Dim(l), Dim(l + 1))]   \* prolongation l+1 -> l
+Rmat  == [l \in 0..(MaxLevAll - 1) |-> GenMat(7, l, Dim(l + 1), Dim(l))]   \* restriction  l -> l+1
+\* defects: odd dk = a filtered defect (what an outer solver passes), even dk = an arbitrary vector
+DefectRaw(dk, top) == TLCEval([i \in 1..Dim(top) |-> Val(8, dk, i, top)])
+Defect(dk, top) == IF dk % 2 = 1 THEN FiltDef(top, DefectRaw(dk, top)) ELSE DefectRaw(dk, top)
+
+\* ======================================================================================================
+\* Part 3: denotation over Z_p
+\* ======================================================================================================
+\* filter_def is applied to every defect / restricted right-hand side / A c, filter_cor to every correction
+\* (prolongated coarse solution, smoother output, the identity "solver" of a coarse level without solver)
 \* the (filtered) defect of level l
-TrueDef(st, l) == Filt(l, VSub(st.rhs[l], MatVec(Amat[l], st.sol[l])))
+TrueDef(st, l) == FiltDef(l, VSub(st.rhs[l], MatVec(Amat[l], st.sol[l])))
 
 \* c: configuration [top, crs, adapt (0 fixed, 1 min-energy, 2 min-defect), fl (presence flags), share (post == pre object)]
 PostMat(c, l) == IF c.share /\ c.fl[l].pre THEN Spre[l] ELSE Spost[l]
 
 \* one defect-correction step with smoother matrix S
 SmoothStep(st, l, S) ==
-  [st EXCEPT !.sol[l] = VAdd(st.sol[l], Filt(l, MatVec(S, TrueDef(st, l))))]
+  [st EXCEPT !.sol[l] = VAdd(st.sol[l], FiltCor(l, MatVec(S, TrueDef(st, l))))]
 
 \* step length of the coarse grid correction cc on level l (cc filtered): [w, ok]
 \*   fixed:       1
 \*   min-energy:  <d, c> / <A c, c>            minimiser of the energy  1/2 x^T A x - b^T x  along c
+\*                (filter_def is the transpose of filter_cor, so <filter_def(A c), c> = <A c, c> for a filtered c)
 \*   min-defect:  <d, A c> / <A c, A c>        minimiser of |d - w A c|  (A c filtered like every defect)
 Omega(st, l, cc, adapt) ==
   IF adapt = 0 THEN [w |-> 1, ok |-> TRUE, num |-> 0, den |-> 1]
   ELSE LET d  == TrueDef(st, l)
-           ac == Filt(l, MatVec(Amat[l], cc))
+           ac == FiltDef(l, MatVec(Amat[l], cc))
            num == IF adapt = 1 THEN Dot(d, cc) ELSE Dot(d, ac)
            den == IF adapt = 1 THEN Dot(ac, cc) ELSE Dot(ac, ac)
        IN [w |-> IF den = 0 THEN 0 ELSE (num * Inv(den)) % P, ok |-> den # 0, num |-> num, den |-> den]
@@ -210,7 +244,7 @@ Omega(st, l, cc, adapt) ==
 \* resp. to A c (defect)
 OmegaStationary(st, l, cc, adapt, w) ==
   LET d  == TrueDef(st, l)
-      ac == Filt(l, MatVec(Amat[l], cc))
+      ac == FiltDef(l, MatVec(Amat[l], cc))
       nd == VSub(d, VScale(w, ac))
   IN CASE adapt = 0 -> w = 1
        [] adapt = 1 -> Dot(nd, cc) = 0
@@ -223,9 +257,9 @@ Step(st, e, c) ==
     [] k = KPeak -> IF c.fl[l].peak THEN SmoothStep(st, l, Speak[l])
                     ELSE LET s1 == IF c.fl[l].pre THEN SmoothStep(st, l, Spre[l]) ELSE st
                          IN IF c.fl[l].post THEN SmoothStep(s1, l, PostMat(c, l)) ELSE s1
-    [] k = KCoarse -> [st EXCEPT !.sol[l] = IF c.fl[l].cs THEN MatVec(Csol[l], st.rhs[l]) ELSE Filt(l, st.rhs[l])]
-    [] k = KRest -> [st EXCEPT !.rhs[l + 1] = Filt(l + 1, MatVec(Rmat[l], TrueDef(st, l)))]
-    [] k = KProl -> LET cc == Filt(l, MatVec(Pmat[l], st.sol[l + 1]))
+    [] k = KCoarse -> [st EXCEPT !.sol[l] = IF c.fl[l].cs THEN MatVec(Csol[l], st.rhs[l]) ELSE FiltCor(l, st.rhs[l])]
+    [] k = KRest -> [st EXCEPT !.rhs[l + 1] = FiltDef(l + 1, MatVec(Rmat[l], TrueDef(st, l)))]
+    [] k = KProl -> LET cc == FiltCor(l, MatVec(Pmat[l], st.sol[l + 1]))
                         om == Omega(st, l, cc, c.adapt)
                     IN [st EXCEPT !.sol[l] = VAdd(st.sol[l], VScale(om.w, cc)),
                                   !.ok = st.ok /\ om.ok,
